@@ -14,7 +14,7 @@ from math import factorial
 from typing import Dict, List, Optional, Tuple
 
 from ..elements import load_refdoms, RefdomInfo
-from ..interp import Arr, Interp, Unsupported, Raised
+from ..interp import PyFunc, Arr, Interp, Unsupported, Raised
 from ..model import AnalysisError, FuncInfo, Model, src
 from ..poly import Poly
 
@@ -140,6 +140,138 @@ def _clamps(fn: FuncInfo, param: str, rep, rule: str):
     return lo
 
 
+class _GaussSym:
+    """Symbolic Gauss-Legendre rules for auditing *generated* simplex rules.
+    ``leggauss(n)`` returns the symbols (gx, gw): nodes on [-1, 1] and
+    weights, of which only the defining property is used - sum_i gw_i
+    gx_i^p = int_{-1}^{1} x^p for p <= 2n - 1.  ``np.meshgrid`` makes one
+    independent copy of the symbols per grid axis (suffix by axis position,
+    so arrays from different meshgrid calls over the same axes stay
+    co-indexed).  Arrays over the grid are scalars (engine-B convention)."""
+
+    AXES = ("c", "r", "p")
+
+    def __init__(self):
+        self.used = False
+        self.n = None
+
+    def hook(self, interp, name, args, kwargs, node):
+        if name == "numpy.polynomial.legendre.leggauss":
+            n = args[0]
+            if isinstance(n, Fraction) and n.denominator == 1:
+                n = int(n)
+            if not isinstance(n, int) or n < 1:
+                raise Raised("leggauss of a non-positive count")
+            if self.n is not None and self.n != n:
+                raise Unsupported("Gauss rules of different sizes in one "
+                                  "generated rule")
+            self.used, self.n = True, n
+            return (Poly.sym("gx"), Poly.sym("gw"))
+        if name == "numpy.ceil" and isinstance(args[0], (int, Fraction)):
+            import math
+            return Fraction(math.ceil(args[0]))
+        if self.used and name == "numpy.meshgrid" and not kwargs:
+            outs = []
+            for k, a in enumerate(args):
+                if isinstance(a, Arr):
+                    fl = a.flat()
+                    if len(fl) != 1:
+                        raise Unsupported("meshgrid of a materialised array")
+                    a = fl[0]
+                a = Poly.coerce(a)
+                if not a.symbols() <= {"gx", "gw"}:
+                    raise Unsupported("meshgrid of an already gridded value")
+                ax = self.AXES[k]
+                outs.append(a.subs({"gx": Poly.sym("gx_" + ax),
+                                    "gw": Poly.sym("gw_" + ax)}))
+            return tuple(outs)
+        if self.used and name == "numpy.vstack":
+            rows = list(args[0])
+            if all(isinstance(x, (Poly, int, Fraction)) for x in rows):
+                return Arr([Poly.coerce(x) for x in rows])
+        if self.used and name == "numpy.array" and isinstance(
+                args[0], list):
+            return Arr(args[0])
+        return NotImplemented
+
+    def attr_hook(self, interp, o, name, node):
+        if self.used and isinstance(o, Poly) and name in ("flatten",
+                                                          "ravel", "copy"):
+            return PyFunc(lambda a, k, n: o)
+        return NotImplemented
+
+    def moment(self, p):
+        """sum_i gw_i gx_i^p, or None beyond the exactness of the rule"""
+        if p > 2 * self.n - 1:
+            return None
+        return Fraction(0) if p % 2 else Fraction(2, p + 1)
+
+
+def _audit_generated(rep, R1, fname, fn, r, dim, val, gauss):
+    cons = f"order={r}"
+    if not (isinstance(val, tuple) and len(val) == 2):
+        raise AnalysisError(f"{fname}({r}) is not (points, weights)")
+    X, W = val
+    rows = [Poly.coerce(x) for x in X.flat()] if isinstance(X, Arr) else None
+    if rows is None or len(rows) != dim or not isinstance(W, (Poly, int,
+                                                             Fraction)):
+        raise AnalysisError(f"{fname}({r}): generated rule outside the "
+                            f"symbolic Gauss domain")
+    W = Poly.coerce(W)
+    axes = sorted({s_[3:] for s_ in W.symbols() if s_.startswith("gw_")})
+    if not axes or any(s_ in ("gx", "gw") for p_ in rows + [W]
+                       for s_ in p_.symbols()):
+        raise AnalysisError(f"{fname}({r}): generated rule is not a tensor "
+                            f"grid of Gauss rules")
+    adv = max(r, 0)
+    worst = None
+    nmono = 0
+    for exps in product(range(adv + 1), repeat=dim):
+        if sum(exps) > adv:
+            continue
+        nmono += 1
+        Q = W
+        for d_, e_ in enumerate(exps):
+            for _ in range(e_):
+                Q = Q * rows[d_]
+        total = Fraction(0)
+        inexact = None
+        for mono, c in Q.t.items():
+            pw = dict(mono)
+            term = Fraction(c)
+            for ax in axes:
+                if pw.pop("gw_" + ax, 0) != 1:
+                    raise AnalysisError(f"{fname}({r}): weights are not "
+                                        f"linear in each axis' Gauss "
+                                        f"weights")
+                m = gauss.moment(pw.pop("gx_" + ax, 0))
+                if m is None:
+                    inexact = (ax, dict(mono).get("gx_" + ax))
+                    break
+                term *= m
+            if inexact:
+                break
+            if pw:
+                raise AnalysisError(f"{fname}({r}): stray symbols {pw}")
+            total += term
+        if inexact:
+            worst = worst or (exps, f"needs the {gauss.n}-point Gauss rule "
+                              f"along axis '{inexact[0]}' to be exact for "
+                              f"degree {inexact[1]} > {2 * gauss.n - 1}")
+        elif total != _exact_moment(exps):
+            worst = worst or (exps, f"gives {total} instead of "
+                              f"{_exact_moment(exps)}")
+    if worst is None:
+        rep.ok(R1, f"{fname}:{cons}:degree",
+               f"generated from {gauss.n}-point Gauss rules: all {nmono} "
+               f"monomials of total degree <= {adv} exact (symbolic "
+               f"moments)")
+    else:
+        rep.fail(R1, F, fname, f"{cons}:degree",
+                 f"the rule generated for order {r} does not integrate "
+                 f"x^{worst[0]} exactly: {worst[1]}", fn.lineno)
+
+
 def _audit_simplex_table(model: Model, rep, fname: str, rd: RefdomInfo):
     """Audit per *requested order*: the function is interpreted for every
     order from -1 to the largest tabulated key (clamps, index arithmetic,
@@ -162,16 +294,26 @@ def _audit_simplex_table(model: Model, rep, fname: str, rd: RefdomInfo):
     kline = {k.value: k.lineno for k in table.keys}
     nrules = 0
     seen_rules = {}
-    for r in range(-1, max(keys) + 1):
+    beyond = (max(keys) + 1, max(keys) + 2, max(keys) + 9)
+    for r in list(range(-1, max(keys) + 1)) + list(beyond):
         cons = f"order={r}"
+        gauss = _GaussSym()
         try:
-            val = Interp(model).call(fn, [r], {})
+            it = Interp(model, call_hook=gauss.hook,
+                        attr_hook=gauss.attr_hook)
+            val = it.call(fn, [r], {})
         except Raised:
             rep.ok(R1, f"{fname}:{cons}:not-offered",
-                   "order not offered: raises")
+                   "order not offered: raises" if r not in beyond else
+                   "orders beyond the table raise")
             continue
         except Unsupported as e:
             raise AnalysisError(f"{fname}({r}) outside grammar: {e}")
+        if gauss.used:
+            # a rule generated from Gauss-Legendre rules (no table entry)
+            _audit_generated(rep, R1, fname, fn, r, dim, val, gauss)
+            nrules += 1
+            continue
         if not (isinstance(val, tuple) and len(val) == 2
                 and isinstance(val[0], Arr) and isinstance(val[1], Arr)):
             raise AnalysisError(f"{fname}({r}) is not (points, weights)")
@@ -245,17 +387,6 @@ def _audit_simplex_table(model: Model, rep, fname: str, rd: RefdomInfo):
                      f"the rule returned for order {r} does not integrate "
                      f"x^{worst_m} exactly: error {float(worst):.2e} "
                      f"(tolerance {float(TOL):.0e})", line)
-    for r in (max(keys) + 1, max(keys) + 2, max(keys) + 9):
-        cons = f"{fname}:order={r}:beyond-table"
-        try:
-            Interp(model).call(fn, [r], {})
-            rep.fail(R1, F, fname, f"order={r}:beyond-table",
-                     f"order {r} exceeds every tabulated rule but a rule is "
-                     f"returned instead of an error", fn.lineno)
-        except Raised:
-            rep.ok(R1, cons, "orders beyond the table raise")
-        except Unsupported as e:
-            raise AnalysisError(f"{fname}({r}) outside grammar: {e}")
     return len(keys)
 
 
@@ -771,7 +902,10 @@ def _dispatch(model, rep, refdoms):
 def run(model: Model, rep, tier: str) -> None:
     rep.rule("C08-R1", "every simplex table entry integrates all monomials "
              "up to its key exactly, weights sum to the measure, nodes "
-             "inside; clamps only raise; missing keys raise")
+             "inside, for every requested order from -1 to the largest "
+             "key (clamps, post-scaling, fallbacks included); orders beyond "
+             "the table raise or return a rule audited the same way "
+             "(generated Gauss-based rules by symbolic moments)")
     rep.rule("C08-R2", "Gauss-Legendre point count covers the order for all "
              "n; [-1,1]->[0,1] map with matching Jacobian")
     rep.rule("C08-R3", "tensor constructions keep each base rule's "
@@ -816,7 +950,30 @@ def run(model: Model, rep, tier: str) -> None:
 # ----------------------------------------------------------------------
 # self-validation (thorough tier): edits that compile and break / keep C08
 _Q = "skfem/quadrature.py"
+_TRI_EXC = """    except KeyError:
+        raise NotImplementedError("The requested order of quadrature"
+                                  "is not implemented!")
+
+
+def get_quadrature_line("""
+_TRI_GEN = """    except KeyError:
+        X, W = get_quadrature_line(norder%s)
+        u, v = np.meshgrid(X, X)
+        wu, wv = np.meshgrid(W, W)
+        u, v = u.flatten(), v.flatten()
+        return (np.vstack((u, (1. - u) * v)),
+                (wu * wv).flatten() * (1. - u))
+
+
+def get_quadrature_line("""
 MUTANTS = [
+    ("triangle orders beyond the table served by a collapsed Gauss rule "
+     "that ignores the degree of the Jacobian",
+     (F, _TRI_EXC, _TRI_GEN % ""), "C08-R1"),
+    ("collapsed Gauss rule without the Jacobian factor",
+     (F, _TRI_EXC, (_TRI_GEN % " + 1").replace(
+         "(wu * wv).flatten() * (1. - u))", "(wu * wv).flatten())")),
+     "C08-R1"),
     ("one digit of a triangle weight",
      (_Q, "                        -0.28125,", "                        -0.28124,"),
      "C08-R1"),
@@ -885,6 +1042,9 @@ MUTANTS = [
       "refdom == RefLine:"), "C08-R4"),
 ]
 TWINS = [
+    ("triangle orders beyond the table served by a collapsed Gauss rule of "
+     "sufficient degree",
+     (F, _TRI_EXC, _TRI_GEN % " + 1")),
     ("triangle rule: two nodes exchanged together with their weights",
      (_Q, "                        [0.333333333333333, 0.2, 0.6, 0.2],\n"
       "                        [0.333333333333333, 0.6, 0.2, 0.2],\n",
